@@ -435,6 +435,10 @@ class TableTh(Vals):
             return SV('tabledict', None, key=kv, value=vv)
         return Vals.expr(self, ex, st, e)
 
+    def dictcomp(self, ex, st, e):
+        """hook name used by executors that have an e_DictComp handler; same treatment as in `expr`"""
+        return self.expr(ex, st, e)
+
     def call_value(self, ex, st, e, fn, args, kwargs):
         if fn.kind == 'class' and fn.f.get('name') == 'dictable' and len(args) == 1 and args[0].kind == 'tabledict':
             ex.use('assumed contract:type(self)(dict of equal-length columns) is the table with those columns (C01)')
@@ -533,6 +537,14 @@ def build(ctx):
     EXCL = ['dict branch (sorted items, two cmparr calls): no value of the deductive universe is a dict; bounded stand-in only',
             'numpy scalars, datetime.date, Enum (as_primitive normalisation): bounded stand-in only',
             'ints beyond +-2**53 (float(i) inexact; beyond ~1.8e308 cmp raises OverflowError)']
+
+    # ------------------------------------------------------------------ the theory's comparison axioms against CPython, on every run
+    def axiom_validation():
+        probs = tv.validate_against_cpython()
+        if probs:
+            raise OutOfSubset('comparison axioms of the value universe disagree with CPython: %s' % '; '.join(probs[:5]))
+        ctx.trust(tv.VALIDATION_NOTE)
+    ctx.guarded('axiom validation', axiom_validation)
 
     # ------------------------------------------------------------------ cmparr: body against its loop contract
     def cmparr_section():
